@@ -72,15 +72,24 @@ def run(prog: Program, rep, thorough: bool) -> None:
     td = prog.module(C.M_TD)
     ds = prog.func(C.M_TD, 'HitResult.danger_space')
     rep.saw(ds)
-    scans = {n: f for n, f in ds.nested.items()}
+    # the scans: the nested functions that loop over the trajectory rows; other nested functions are helpers, inlined
+    # by the evaluator where a scan calls them
+    def _loops_over_rows(f: Func) -> bool:
+        return any(isinstance(n, ast.For) and any(isinstance(x, ast.Attribute) and x.attr == 'trajectory' for x in ast.walk(n.iter))
+                   for n in ast.walk(f.node))
+    scans = {n: f for n, f in ds.nested.items() if _loops_over_rows(f)}
+    helpers = {n: f for n, f in ds.nested.items() if n not in scans}
     if len(scans) != 2:
-        raise AnalysisError(f'danger_space: expected two nested scan functions, found {sorted(scans)}')
+        raise AnalysisError(f'danger_space: expected two nested scan functions over the rows, found {sorted(scans)} '
+                            f'(helpers {sorted(helpers)})')
     ev = Evaluator(prog, hooks=C.pref_hooks(prog), opaque={'index_at_distance'})
     hr = prog.cls(C.M_TD, 'HitResult')
 
     # ---- prefix: half height -----------------------------------------------------------------
     first_def = min(f.node.lineno for f in scans.values())
-    prefix = [s for s in ds.node.body if s.lineno < first_def and not isinstance(s, ast.FunctionDef)]
+    last_def = max(f.node.lineno for f in scans.values())
+    prefix = [s for s in ds.node.body if (s.lineno < first_def and not isinstance(s, ast.FunctionDef))
+              or (isinstance(s, ast.FunctionDef) and s.name in helpers and s.lineno < last_def)]
     st = State()
     selfv = SymObj('self', hr)
     env = {ds.positional[0]: selfv, 'at_range': C.mk_quantity(ev, st, prog, 'Distance', 'R', 'Yard'),
@@ -121,6 +130,13 @@ def run(prog: Program, rep, thorough: bool) -> None:
                 half, half_name = v.rf, n
     if half is None:
         raise AnalysisError('danger_space: half target height not found before the scans')
+    closure_env: Dict[str, object] = {}
+    closure_heap: Dict[int, object] = {}
+    for _p, leaf in leaves(tree):
+        if leaf.kind != 'raise':
+            closure_env = dict(leaf.state.env)
+            closure_heap = dict(leaf.state.heap)
+            break
     # ---- scans ---------------------------------------------------------------------------------
     roles = {}
     for name, f in scans.items():
@@ -138,25 +154,36 @@ def run(prog: Program, rep, thorough: bool) -> None:
         if row_var is None or norm(ret_in.value) != row_var:
             rep.fail('C16.R2', td.path, ret_in.lineno, f.qualname, f'{name}:returns',
                      f'{name} returns `{norm(ret_in.value)}` instead of the row that met the bound')
-        # evaluate the predicate: centre row c, scanned row p, half height h
+        # evaluate the predicate: centre row c = self.trajectory[row_num], scanned row p, half height h.  The
+        # statements before the loop run first (with the enclosing function's locals), so a centre taken through a
+        # helper or kept as a number is read through.
         st = State()
+        st.heap.update(closure_heap)
         rownum = f.positional[0]
-        center_assign = [s for s in f.node.body if isinstance(s, ast.Assign) and s.lineno < loop.lineno]
+        st.env.update(closure_env)
         st.env[rownum] = S('k')
         st.env[ds.positional[0]] = SymObj('self', hr)
-        centre_ok = False
-        for s in center_assign:
-            if isinstance(s.targets[0], ast.Name) and norm(s.value) == f'self.trajectory[{rownum}]':
-                st.env[s.targets[0].id] = _row(ev, st, prog, 'c')
-                centre_ok = True
-        if not centre_ok:
-            rep.fail('C16.R2', td.path, f.node.lineno, f.qualname, f'{name}:centre',
-                     f'{name}: the centre row is not self.trajectory[{rownum}]')
-            continue
-        st.env[row_var] = _row(ev, st, prog, 'p')
+        st.env['__centre__'] = _row(ev, st, prog, 'c')
         st.env[half_name] = S('h')
+
+        class _Centre(ast.NodeTransformer):
+            def visit_Subscript(self_, node):
+                if norm(node.value) == f'{ds.positional[0]}.trajectory' and norm(node.slice) == rownum:
+                    return ast.copy_location(ast.Name(id='__centre__', ctx=ast.Load()), node)
+                return self_.generic_visit(node)
+        import copy
+        pre_loop = [_Centre().visit(copy.deepcopy(s_)) for s_ in f.node.body
+                    if s_.lineno < loop.lineno and not (isinstance(s_, ast.Expr) and isinstance(s_.value, ast.Constant))]
+        for s_ in pre_loop:
+            ast.fix_missing_locations(s_)
+        test2 = ast.fix_missing_locations(_Centre().visit(copy.deepcopy(test)))
         try:
-            pv = ev.eval(test, st, Ctx(td, f, None, 0))
+            t_pre = ev.exec_block(pre_loop, st, Ctx(td, f, None, 0))
+            if not isinstance(t_pre, Leaf) or t_pre.kind != 'fall':
+                raise Undecided('branching before the scan loop')
+            st = t_pre.state
+            st.env[row_var] = _row(ev, st, prog, 'p')
+            pv = ev.eval(test2, st, Ctx(td, f, None, 0))
         except Undecided as exc:
             raise AnalysisError(f'{name} predicate: {exc}') from exc
         # classification over the orderings of delta = p - c against +-h (h > 0)
@@ -172,9 +199,10 @@ def run(prog: Program, rep, thorough: bool) -> None:
                 if t.rf is not None:
                     used |= t.rf.symbols()
         if None in got.values() or not used <= {'p', 'c', 'h'}:
+            extra = sorted(used - {'p', 'c', 'h'})
             rep.fail('C16.R2', td.path, ifs[0].lineno, f.qualname, f'{name}:scale',
-                     f'{name}: the bound test `{norm(test)[:80]}` does not compare raw drop magnitudes with the half '
-                     f'height on one scale (it reads {sorted(used - {"p", "c", "h"})[:3]})')
+                     f'{name}: the bound test `{norm(test)[:80]}` is not a comparison of (drop of the scanned row - drop of '
+                     f'the target row self.trajectory[{rownum}]) with the half height on one scale: it reads {extra[:4]}')
             continue
         rep.ok('C16.R2', td.where(ifs[0]), f'{name}: drops and half height compared as raw magnitudes')
         wrong = [k for k in want if got[k] != want[k]]
@@ -264,6 +292,9 @@ VARIANTS = [
     Variant('begin-scan-forward', 'break', [(TDF, 'for prime_row in reversed(self.trajectory[:row_num]):', 'for prime_row in self.trajectory[:row_num]:')], 'C16.R2', 'returns the farthest qualifying row: not contiguous'),
     Variant('strict-bound', 'break', [(TDF, 'if abs(center_row.target_drop.raw_value - prime_row.target_drop.raw_value) >= target_height_half:', 'if abs(center_row.target_drop.raw_value - prime_row.target_drop.raw_value) > target_height_half:')], 'C16.R1', 'a row exactly half a height away no longer bounds'),
     Variant('at-range-off-by-one', 'break', [(TDF, 'return DangerSpace(self.trajectory[index],', 'return DangerSpace(self.trajectory[index - 1],')], 'C16.R2'),
+    Variant('twin-drop-helper', 'twin', [(TDF, '        def find_begin_danger(row_num: int) -> TrajectoryData:', '        def drop_of(row: TrajectoryData) -> float:\n            return row.target_drop.raw_value\n\n        def find_begin_danger(row_num: int) -> TrajectoryData:'), (TDF, '            center_row = self.trajectory[row_num]\n            for prime_row in reversed(self.trajectory[:row_num]):\n                if abs(prime_row.target_drop.raw_value - center_row.target_drop.raw_value) >= target_height_half:', '            center_drop = drop_of(self.trajectory[row_num])\n            for prime_row in reversed(self.trajectory[:row_num]):\n                if abs(drop_of(prime_row) - center_drop) >= target_height_half:')], None, 'the centre taken through a nested helper and kept as a number'),
+    Variant('drops-in-preferred-drop-unit', 'break', [(TDF, '        def find_begin_danger(row_num: int) -> TrajectoryData:', '        def drop_of(row: TrajectoryData) -> float:\n            return row.target_drop >> PreferredUnits.drop\n\n        def find_begin_danger(row_num: int) -> TrajectoryData:'), (TDF, '            center_row = self.trajectory[row_num]\n            for prime_row in reversed(self.trajectory[:row_num]):\n                if abs(prime_row.target_drop.raw_value - center_row.target_drop.raw_value) >= target_height_half:', '            center_drop = drop_of(self.trajectory[row_num])\n            for prime_row in reversed(self.trajectory[:row_num]):\n                if abs(drop_of(prime_row) - center_drop) >= target_height_half:')], 'C16.R2', 'seeded change C16/4 in part: drops in the preferred drop unit against a raw half height'),
+    Variant('centre-from-look-angle', 'break', [(TDF, '            center_row = self.trajectory[row_num]\n            for prime_row in self.trajectory[row_num + 1:]:\n                if abs(center_row.target_drop.raw_value - prime_row.target_drop.raw_value) >= target_height_half:', '            center_row = self.trajectory[row_num]\n            for prime_row in self.trajectory[row_num + 1:]:\n                if abs(center_row.target_drop.raw_value - (prime_row.height.raw_value - prime_row.distance.raw_value * math.tan(_look_angle.raw_value))) >= target_height_half:')], 'C16.R2', 'seeded change C16/6 in part: the scanned row\'s drop recomputed from the look_angle argument'),
     Variant('twin-explicit-or', 'twin', [(TDF, 'if abs(center_row.target_drop.raw_value - prime_row.target_drop.raw_value) >= target_height_half:', 'if (center_row.target_drop.raw_value - prime_row.target_drop.raw_value) >= target_height_half or (prime_row.target_drop.raw_value - center_row.target_drop.raw_value) >= target_height_half:')], None),
     Variant('twin-guard-eq-minus-one', 'twin', [(TDF, '        if (index := self.index_at_distance(at_range)) < 0:', '        if (index := self.index_at_distance(at_range)) == -1:')], None),
     Variant('twin-guard-le-minus-one', 'twin', [(TDF, '        if (index := self.index_at_distance(at_range)) < 0:', '        if (index := self.index_at_distance(at_range)) <= -1:')], None),
